@@ -574,6 +574,8 @@ class Schema(ResolverMap):
             },
         )
 
+        cloned.default_resolver = self.default_resolver
+
         # The copied fields already carry their resolvers. Transforms rename
         # and remove fields of the schema they are applied to, so only the
         # registry entries which still name a field are carried over.
